@@ -7,7 +7,8 @@ CFG = {'assumptions': ['version strings of at most 16 bytes that do not end in N
  'files': ['pbcmpl/pbcmpl.go', 'pbcmpl/header.go'],
  'go': {'pbcmpl.Marshal': 'pbcmpl.Marshal + pbcmpl.Size + pbcmpl.HeaderSize',
         'pbcmpl.Roundtrip': 'pbcmpl.Marshal (n frames into one buffer) then pbcmpl.Unmarshal until io.EOF over a chunked reader',
-        'pbcmpl.ReadHeader': 'pbcmpl.Marshal then pbcmpl.ReadHeader over a chunked reader'},
+        'pbcmpl.ReadHeader': 'pbcmpl.Marshal then pbcmpl.ReadHeader over a chunked reader',
+        'pbcmpl.Walk/frames': 'widening: pbcmpl.Marshal (n frames into one buffer), then a user loop of pbcmpl.ReadHeader + io.ReadFull(GetBodySize) over a chunked reader, no decoding'},
  'rule': 'cases = exhaustive sweep {raw legacy message, wrappers.BytesValue} x {no GetVersion, version length 0..16 in three byte '
          'styles} x body length {0,1,31,32,33,127,128} x chunking {whole, 1 byte, 7, 32+5} + bodies of 511..multi-KB (around '
          "io.ReadAll's 512-byte buffer) + random streams of 1..5 frames read back through random chunkings, optionally with the "
